@@ -299,9 +299,19 @@ def digitVal (c : Char) : Nat :=
 
 def digitsVal (ds : List Char) : Nat := ds.foldl (fun acc c => acc * 10 + digitVal c) 0
 
+/-- the two constants the code reads from its environment: the module global `SSIZE_MAX` and the interpreter's
+    `sys.get_int_max_str_digits()` (0 = no limit).  `liveCfg` is what the translator found; the driver can run the model under
+    other values (the harness patches the module global / the interpreter setting to test the overflow branches). -/
+structure Cfg where
+  ssizeMax : Nat
+  digitLimit : Nat
+  deriving DecidableEq, Repr, Inhabited
+
+def liveCfg : Cfg := { ssizeMax := SSIZE_MAX, digitLimit := intMaxStrDigits }
+
 /-- `int(ds)` for a non-empty run of `\d` characters: `ValueError` above the interpreter's digit limit, if one is set -/
-def pyInt (ds : List Char) : Except Py.Exc Nat :=
-  if intMaxStrDigits ≠ 0 ∧ ds.length > intMaxStrDigits then .error .ValueError else .ok (digitsVal ds)
+def pyInt (cfg : Cfg) (ds : List Char) : Except Py.Exc Nat :=
+  if cfg.digitLimit ≠ 0 ∧ ds.length > cfg.digitLimit then .error .ValueError else .ok (digitsVal ds)
 
 /-- `name.isdecimal()` -/
 def isDecimalStr (s : List Char) : Bool := !s.isEmpty && s.all isDigit
@@ -325,20 +335,20 @@ inductive AddErr where
   deriving DecidableEq, Repr, Inhabited
 
 /-- `FormatString.add_argument(name, field)` -/
-def addArgument (st : State) (name : Option (List Char)) (a : Arg) : Except AddErr State :=
+def addArgument (cfg : Cfg) (st : State) (name : Option (List Char)) (a : Arg) : Except AddErr State :=
   match name with
   | none =>
     match st.next with
     | none => .error .indexError
     | some n =>
-      if n > SSIZE_MAX then .error .overflowError
+      if n > cfg.ssizeMax then .error .overflowError
       else .ok { next := some (n + 1), map := mapAdd st.map (.idx n) a }
   | some nm =>
     if isDecimalStr nm then
-      match pyInt nm with
+      match pyInt cfg nm with
       | .error e => .error (.crash e)
       | .ok n =>
-        if n > SSIZE_MAX then .error .overflowError
+        if n > cfg.ssizeMax then .error .overflowError
         else
           match st.next with
           | none => .ok { st with map := mapAdd st.map (.idx n) a }
@@ -350,7 +360,7 @@ def addArgument (st : State) (name : Option (List Char)) (a : Arg) : Except AddE
 
 /-- the `else:` branch of `Field.__init__` (a format specification without nested fields): the type set, or the error class.
     `fmt` is the group `format`, with its leading `:`. -/
-def specTypes (fmt : List Char) : Except (ErrClass ⊕ Py.Exc) TySet :=
+def specTypes (cfg : Cfg) (fmt : List Char) : Except (ErrClass ⊕ Py.Exc) TySet :=
   match fmt with
   | ':' :: spec =>
     match scanSpec spec with
@@ -382,9 +392,9 @@ def specTypes (fmt : List Char) : Except (ErrClass ⊕ Py.Exc) TySet :=
           match f.width with
           | none => .ok ()
           | some ds =>
-            match pyInt ds with
+            match pyInt cfg ds with
             | .error e => .error (.inr e)
-            | .ok n => if n > SSIZE_MAX then .error (.inl .FormatError) else .ok ()
+            | .ok n => if n > cfg.ssizeMax then .error (.inl .FormatError) else .ok ()
         match w with
         | .error e => .error e
         | .ok () =>
@@ -394,9 +404,9 @@ def specTypes (fmt : List Char) : Except (ErrClass ⊕ Py.Exc) TySet :=
           | some ds =>
             let tp3 := tp2.inter ⟨true, false, true⟩
             if tp3.isEmpty then .error (.inl .FormatError) else
-            match pyInt ds with
+            match pyInt cfg ds with
             | .error e => .error (.inr e)
-            | .ok n => if n > SSIZE_MAX then .error (.inl .FormatError) else .ok tp3
+            | .ok n => if n > cfg.ssizeMax then .error (.inl .FormatError) else .ok tp3
   | _ => .error (.inr .AssertionError)     -- `assert fmt[0] == ':'`
 
 /-- is the format specification one with nested fields (`'{' in fmt`)? -/
@@ -404,12 +414,12 @@ def hasNested (fmt : List Char) : Bool := fmt.contains '{'
 
 /-- the type set `Field.types` would get if nothing raised (used for the element put into `_argument_map` before the
     rest of `Field.__init__` runs; if anything raises, the map is discarded with the exception) -/
-def ownTypes (f : RawField) : TySet :=
+def ownTypes (cfg : Cfg) (f : RawField) : TySet :=
   match f.format with
   | none => TySet.all
   | some fmt =>
     if hasNested fmt then TySet.all
-    else match specTypes fmt with
+    else match specTypes cfg fmt with
       | .ok tp => tp
       | .error _ => TySet.all
 
@@ -420,17 +430,17 @@ def liftAdd (text : List Char) (nestedArg : Bool) : Except AddErr State → Exce
   | .error (.crash e) => .error (.crash e)
 
 /-- the loop `for subfield in _simple_field_re.findall(fmt)` -/
-def nestedAdds (text : List Char) : List (List Char) → State → Except PErr State
+def nestedAdds (cfg : Cfg) (text : List Char) : List (List Char) → State → Except PErr State
   | [], st => .ok st
   | nm :: rest, st =>
     -- `assert subfield[0] == '{'`, `assert subfield[-1] == '}'` hold by the pattern
-    match liftAdd text true (addArgument st (if nm.isEmpty then none else some nm) { nested := true, types := TySet.all }) with
+    match liftAdd text true (addArgument cfg st (if nm.isEmpty then none else some nm) { nested := true, types := TySet.all }) with
     | .error e => .error e
-    | .ok st' => nestedAdds text rest st'
+    | .ok st' => nestedAdds cfg text rest st'
 
 /-- `Field(parent, match)`: the new state and `self.types` -/
-def fieldInit (st : State) (f : RawField) : Except PErr (State × TySet) :=
-  match liftAdd f.text false (addArgument st f.name { nested := false, types := ownTypes f }) with
+def fieldInit (cfg : Cfg) (st : State) (f : RawField) : Except PErr (State × TySet) :=
+  match liftAdd f.text false (addArgument cfg st f.name { nested := false, types := ownTypes cfg f }) with
   | .error e => .error e
   | .ok st1 =>
     let step2 : Except PErr (State × TySet) :=
@@ -438,11 +448,11 @@ def fieldInit (st : State) (f : RawField) : Except PErr (State × TySet) :=
       | none => .ok (st1, TySet.all)
       | some fmt =>
         if hasNested fmt then
-          match nestedAdds f.text f.nested st1 with
+          match nestedAdds cfg f.text f.nested st1 with
           | .error e => .error e
           | .ok st2 => .ok (st2, TySet.all)
         else
-          match specTypes fmt with
+          match specTypes cfg fmt with
           | .error (.inl c) => .error (.own c (.text f.text))
           | .error (.inr e) => .error (.crash e)
           | .ok tp => .ok (st1, tp)
@@ -476,19 +486,19 @@ def scanError (cs : List Char) : PErr :=
   | some p => .own .Error (.text p)
 
 /-- the `for match in _field_re.finditer(s)` loop; `fuel` ≥ number of characters left -/
-def loop : Nat → List Char → State → List PreItem → Except PErr (State × List PreItem)
+def loop (cfg : Cfg) : Nat → List Char → State → List PreItem → Except PErr (State × List PreItem)
   | _, [], st, items => .ok (st, items.reverse)
   | 0, _ :: _, _, _ => .error (.crash .NonTermination)
   | fuel + 1, c :: cs, st, items =>
     match scanLiteral (c :: cs).length (c :: cs) with
-    | (t :: ts, rest) => loop fuel rest st (.lit (t :: ts) :: items)
+    | (t :: ts, rest) => loop cfg fuel rest st (.lit (t :: ts) :: items)
     | ([], _) =>
       match scanField (c :: cs) with
       | none => .error (scanError (c :: cs))
       | some (f, rest) =>
-        match fieldInit st f with
+        match fieldInit cfg st f with
         | .error e => .error e
-        | .ok (st', _) => loop fuel rest st' (.field (keyOf st f.name) :: items)
+        | .ok (st', _) => loop cfg fuel rest st' (.field (keyOf st f.name) :: items)
 
 def commonTypes (as : List Arg) : TySet := as.foldl (fun acc a => acc.inter a.types) TySet.all
 
@@ -507,9 +517,9 @@ def lookupTypes (m : List (Key × List Arg)) (k : Key) : TySet :=
   | some (_, a :: _) => a.types
   | _ => TySet.all
 
-/-- `FormatString(s)` -/
-def parse (s : List Char) : Except PErr Result :=
-  match loop s.length s { next := some 0, map := [] } [] with
+/-- `FormatString(s)` under the given constants -/
+def parseWith (cfg : Cfg) (s : List Char) : Except PErr Result :=
+  match loop cfg s.length s { next := some 0, map := [] } [] with
   | .error e => .error e
   | .ok (st, items) =>
     match unify s st.map with
@@ -519,5 +529,8 @@ def parse (s : List Char) : Except PErr Result :=
               | .lit t => .lit t
               | .field k => .field (lookupTypes m k),
             argMap := m }
+
+/-- `FormatString(s)` -/
+def parse (s : List Char) : Except PErr Result := parseWith liveCfg s
 
 end I18n.PyBrace
